@@ -66,6 +66,58 @@ def case_strategy(draw: Any) -> dict[str, Any]:
             "data": [draw(data_strategy(allow_empty=True)), draw(data_strategy(allow_empty=True))]}
 
 
+BOOL_OPS = ("and", "or", "==", "!=", "contains", "<")
+_TF = (True, False)
+BOOL_DATA = [dict(zip("abcd", vs)) for vs in __import__("itertools").product(_TF, repeat=4)] + [
+    {"a": [True, False], "b": True, "c": False, "d": [False]}, {"a": [True, False], "b": False, "c": True, "d": None},
+    {"a": "x", "b": "x", "c": [True], "d": [False, None]}, {"a": None, "b": [None], "c": False, "d": "x"},
+    {"a": [False], "b": [True], "c": [True, False], "d": True}, {"a": 1, "b": 2, "c": 1, "d": [1, 2]},
+    {"a": True, "b": [True, False], "c": [False], "d": False}, {"a": False, "b": [False], "c": [True, False], "d": True},
+]
+
+
+def _shapes(k: int) -> list[Any]:
+    """All binary tree shapes with k internal nodes (None = leaf)."""
+    if k == 0:
+        return [None]
+    out = []
+    for i in range(k):
+        for left in _shapes(i):
+            for right in _shapes(k - 1 - i):
+                out.append((left, right))
+    return out
+
+
+def bool_trees(tier: str) -> Any:
+    import itertools
+
+    max_nots = 1 if tier == "quick" else 2
+    for k in (1, 2, 3):
+        for shape in _shapes(k):
+            n_nodes = 2 * k + 1
+            for ops in itertools.product(BOOL_OPS, repeat=k):
+                for r in range(max_nots + 1):
+                    for nots in itertools.combinations(range(n_nodes), r):
+                        state = {"leaf": 0, "op": 0, "node": 0}
+
+                        def emit(sh: Any) -> str:
+                            me = state["node"]
+                            state["node"] += 1
+                            if sh is None:
+                                text = "abcd"[state["leaf"]]
+                                state["leaf"] += 1
+                            else:
+                                op = ops[state["op"]]
+                                state["op"] += 1
+                                text = "(" + emit(sh[0]) + " " + op + " " + emit(sh[1]) + ")"
+                            return "(not " + text + ")" if me in nots else text
+
+                        expr = emit(shape)
+                        src = ("{% if " + expr + " %}y{% else %}n{% endif %}") if (k + r) % 2 else (
+                            "{{ 'y' if " + expr + " else 'n' }}")
+                        yield {"kind": "src", "src": src, "templates": {}, "data": BOOL_DATA}
+
+
 class C12(Prop):
     id = "C12"
     title = "Serialising a template and reparsing it preserves its behaviour"
@@ -134,6 +186,11 @@ class C12(Prop):
                 for tag in ("include", "render"):
                     yield {"kind": "src", "src": "[{% " + tag + " " + lit + " %}]{% " + tag + " " + lit + ", a: 1 %}",
                            "templates": quoted, "data": [{}]}
+
+        # every boolean expression tree with up to three binary operators over distinct variables, with `not`
+        # at up to one (quick) or two (thorough) of its nodes, written fully parenthesised: str() decides which
+        # parentheses to keep, and dropping one that mattered regroups the reparsed expression
+        yield from bool_trees(tier)
 
         # integer literals at the int-to-str conversion limit: str() writes every digit, and what the parser
         # accepted in exponent spelling must still be accepted digit by digit, sign included
